@@ -76,6 +76,8 @@ def generate(rng, tier):
             base = sc.gen_shared_delay(rng)
         elif i % 9 == 7:
             base = sc.gen_connect_chain(rng)       # same-named components with connect-phase dependencies
+        elif i % 9 == 1:
+            base = sc.gen_shared_and_own(rng)      # a branching shared adapter next to a non-branching one on one output
         elif i % 3 == 2:
             base = _strip_topush(sc.gen_ring(rng, sufficient=True))
         else:
